@@ -289,6 +289,23 @@ CLAIMED = {
         technique="TLA+ exact-lattice spec + TLC exhaustive grid for Spurrier; lattice-driven replay of the charts with float round-trip oracles",
         ref="5/C02",
     ),
+    "C07": dict(
+        level="model_checking",
+        text="ForceElements.tla states the spring, Kelvin-Voigt and Maxwell laws with their energies in exact rational arithmetic; the energy rate "
+             "is an exact central difference of E along the motion; TLC checks on a rational lattice that the compliance residual vanishes at the "
+             "force-form force and that power + energy rate equals minus the damper's dissipation (<= 0; = 0 for the spring); a dead load has "
+             "E = -F.r and power F.v. Real Spring / KelvinVoigtElement (both forms) / MaxwellElement on real TwoPointInteractions between rigid "
+             "bodies, point masses and translating/rotating frames (offsets on both points, default and explicit l_ref) are evaluated at lattice "
+             "states with integer point distance; l, l_dot (code, W_l^T u, geometric rate from the subsystems' kinematics), force, energy, "
+             "compliance residual and h.u form one record that TLC recomputes; real Force objects on rigid bodies, point masses and rod nodes "
+             "likewise. System.E_pot is evaluated on systems containing every energy-reporting contribution class for four rod families.",
+        note="Exact part: two-point interactions where the point distance is an integer (then every quantity is rational). Laws on Revolute "
+             "joints (3 axes, states on the joint manifold) and the power balance of the line-distributed rod load are float comparisons in the "
+             "harness (1e-10 / 1e-9). With prescribed frame motion the power clause is stated for the part of l_dot due to u. Gyroscopic terms "
+             "are decided under C04. A corrupted record must be rejected (self-test).",
+        technique="TLA+ exact-arithmetic law spec model-checked by TLC + TLC trace validation of records taken from the real force elements",
+        ref="5/C07",
+    ),
 }
 
 NOT_APPLICABLE = {
